@@ -1366,7 +1366,8 @@ def check_template_balance(col, rule: str):
         if kind is None:
             continue
         n += 1
-        body = _re.sub(r"\{%-?.*?-?%\}", " ", txt, flags=_re.S)
+        body = _re.sub(r"\{#.*?#\}", " ", txt, flags=_re.S)          # jinja comments render to nothing
+        body = _re.sub(r"\{%-?.*?-?%\}", " ", body, flags=_re.S)
         body = _re.sub(r"\{\{.*?\}\}", "x", body, flags=_re.S)
         ok, why = True, ""
         if kind == "python":
